@@ -176,42 +176,48 @@ set_option maxRecDepth 100000
     from with `make(_, len(y))`, or a `sort.Slice(x, …)` callback parameter are not listed at all). -/
 def safeKinds : List String := ["const-abi-type", "codec-own-data", "narrowing-conversion-guarded", "index-guarded"]
 
-/-- every other potentially panicking construct reachable from a begin/end-blocker outside a
-    `recover`, with the reason it cannot fire (key = function # construct) -/
-def justified : List (String × String) := [
-  ("x/evm/keeper.msgSender.SendValsetMsgForChain#cmsg.(*types.Message)", "the value asserted was constructed as *types.Message three lines above in the same function"),
-  ("x/evm/keeper.scoreValue#val.Sub(min).Quo(max.Sub(min))", "guarded by the `max.Equal(min)` short circuit"),
-  ("x/evm/keeper.transformSnapshotToCompass#totalPowerInt.Int64()", "bonded stake is bounded by the bond-denom supply (< 2^63 ugrain); C10 covers the conversion"),
-  ("x/evm/keeper.transformSnapshotToCompass#val.ShareCount.Int64()", "bonded stake is bounded by the bond-denom supply (< 2^63 ugrain); C10 covers the conversion"),
-  ("x/evm/types.Message_SubmitLogicCall.keccak256#[32]byte(append(padding, m.SenderAddress...))", "SenderAddress is an account (20) or contract (32) address set by ExecuteJob; injectSenderIntoPayload refuses > 32 bytes"),
-  ("x/evm/types.Message_UploadUserSmartContract.keccak256#[32]byte(append(padding, m.SenderAddress...))", "SenderAddress is the 20-byte creator address"),
-  ("x/metrix/keeper.Keeper.OnConsensusMessageAttested#e.HandledAtBlockHeight.Sub(e.AssignedAtBlockHeight).Uint64()", "guarded: handled >= assigned and handled <= block height are checked first"),
-  ("x/metrix/keeper.Keeper.updateTelemetry#val.ExecutionTime.Int64()", "median of block counts, each <= block height"),
-  ("x/metrix/keeper.Keeper.updateTelemetry#val.Fee.Int64()", "never set to anything but zero on the pinned tree"),
-  ("x/paloma/keeper.Keeper.CheckChainVersion#panic(…)", "the deliberate version gate the property exempts"),
-  ("x/valset/keeper.Keeper.isNewSnapshotWorthy#sdkmath.LegacyNewDecFromInt(sortedCurrent[i].ShareCount).QuoInt(currentSnapshot.TotalShares)", "only evaluated for a non-empty snapshot whose total is the sum of positive bonded stakes"),
-  ("x/valset/keeper.Keeper.isNewSnapshotWorthy#sdkmath.LegacyNewDecFromInt(sortedNew[i].ShareCount).QuoInt(newSnapshot.TotalShares)", "only evaluated for a non-empty snapshot whose total is the sum of positive bonded stakes"),
-  ("x/valset/keeper.Keeper.isNewSnapshotWorthy#percentageCurrent.Sub(percentageNow).Abs().MustFloat64", "a difference of two fractions in [0,1]"),
-  ("x/valset/keeper.Keeper.isNewSnapshotWorthy#sortedNew[i]", "i < len(sortedCurrent), and the function returned earlier unless both snapshots hold the same number of validators"),
-  ("x/evm/keeper.Keeper.routerAttester#consensusMsg.(*types.Message)", "the turnstone queue only stores *types.Message (WithStaticTypeCheck at PutMessageInQueue)"),
-  ("x/evm/keeper.Keeper.validatorBalancesAttester#consensusMsg.(*types.ValidatorBalancesAttestation)", "the validators-balances queue only stores that type (WithStaticTypeCheck at PutMessageInQueue)"),
-  ("x/evm/keeper.updateValsetAttester.attest#actionMsg.(*types.Message)", "messages of the same turnstone queue (static type check)"),
-  ("x/evm/keeper.compassHandoverAttester.Execute#a.msg.Action.(*types.Message_CompassHandover)", "the attester is constructed by routerAttester's type switch on this very action"),
-  ("x/evm/keeper.submitLogicCallAttester.Execute#a.msg.Action.(*types.Message_SubmitLogicCall)", "the attester is constructed by routerAttester's type switch on this very action"),
-  ("x/evm/keeper.updateValsetAttester.Execute#a.msg.Action.(*types.Message_UpdateValset)", "the attester is constructed by routerAttester's type switch on this very action"),
-  ("x/evm/keeper.uploadSmartContractAttester.Execute#a.msg.Action.(*types.Message_UploadSmartContract)", "the attester is constructed by routerAttester's type switch on this very action"),
-  ("x/evm/keeper.uploadUserSmartContractAttester.Execute#a.msg.Action.(*types.Message_UploadUserSmartContract)", "the attester is constructed by routerAttester's type switch on this very action"),
-  ("x/evm/keeper.clampToZero#[]math.LegacyDec{math.LegacyZeroDec()}[0]", "index 0 of a one-element literal"),
-  ("x/evm/types.BuildCompassConsensus#sig.Signature[64]", "signatures are stored only after VerifySignature, whose Ecrecover refuses anything but 65 bytes (C06)"),
-  ("x/evm/types.BuildCompassConsensus#sig.Signature[:32]", "signatures are stored only after VerifySignature, whose Ecrecover refuses anything but 65 bytes (C06)"),
-  ("x/evm/types.BuildCompassConsensus#sig.Signature[32:64]", "signatures are stored only after VerifySignature, whose Ecrecover refuses anything but 65 bytes (C06)"),
-  ("x/evm/types.SubmitLogicCall.VerifyAgainstTX#[32]byte(append(padding, m.SenderAddress...))", "SenderAddress is an account (20) or contract (32) address set by ExecuteJob; injectSenderIntoPayload refuses > 32 bytes (C17)"),
-  ("x/evm/types.UploadUserSmartContract.VerifyAgainstTX#[32]byte(append(padding, m.SenderAddress...))", "SenderAddress is the 20-byte creator address"),
-  ("x/evm/types.ValidatorBalancesAttestation.Keccak256WithSignedMessage#m.HexAddresses[i]", "ValAddresses and HexAddresses are appended pairwise by CheckExternalBalancesForChain, the only constructor")
+/-- every other potentially panicking construct (where a reason rests on an invariant of another
+    property's model it names the theorem; reasons that are facts about the Go code not captured by any
+    model — the static type check of a queue, the pairwise construction of two lists — are read off the
+    source and are part of the trusted base of this PARTIAL check) reachable from a begin/end-blocker outside a
+    `recover`, with the number of its occurrences in that function and the reason it cannot fire (key = function # construct) -/
+def justified : List (String × Nat × String) := [
+  ("x/evm/keeper.msgSender.SendValsetMsgForChain#cmsg.(*types.Message)", 1, "the value asserted was constructed as *types.Message three lines above in the same function"),
+  ("x/evm/keeper.scoreValue#val.Sub(min).Quo(max.Sub(min))", 1, "guarded by the `max.Equal(min)` short circuit"),
+  ("x/evm/types.Message_SubmitLogicCall.keccak256#[32]byte(append(padding, m.SenderAddress...))", 1, "SenderAddress is an account (20) or contract (32) address set by ExecuteJob; injectSenderIntoPayload refuses > 32 bytes"),
+  ("x/evm/types.Message_UploadUserSmartContract.keccak256#[32]byte(append(padding, m.SenderAddress...))", 1, "SenderAddress is the 20-byte creator address"),
+  ("x/metrix/keeper.Keeper.OnConsensusMessageAttested#e.HandledAtBlockHeight.Sub(e.AssignedAtBlockHeight).Uint64()", 1, "guarded: handled >= assigned and handled <= block height are checked first"),
+  ("x/metrix/keeper.Keeper.updateTelemetry#val.ExecutionTime.Int64()", 1, "median of block counts, each <= block height"),
+  ("x/metrix/keeper.Keeper.updateTelemetry#val.Fee.Int64()", 1, "never set to anything but zero on the pinned tree"),
+  ("x/paloma/keeper.Keeper.CheckChainVersion#panic(…)", 1, "the deliberate version gate the property exempts"),
+  ("x/valset/keeper.Keeper.isNewSnapshotWorthy#sdkmath.LegacyNewDecFromInt(sortedCurrent[i].ShareCount).QuoInt(currentSnapshot.TotalShares)", 1, "only evaluated for a non-empty snapshot whose total is the sum of positive bonded stakes"),
+  ("x/valset/keeper.Keeper.isNewSnapshotWorthy#sdkmath.LegacyNewDecFromInt(sortedNew[i].ShareCount).QuoInt(newSnapshot.TotalShares)", 1, "only evaluated for a non-empty snapshot whose total is the sum of positive bonded stakes"),
+  ("x/valset/keeper.Keeper.isNewSnapshotWorthy#percentageCurrent.Sub(percentageNow).Abs().MustFloat64", 1, "a difference of two fractions in [0,1]"),
+  ("x/valset/keeper.Keeper.isNewSnapshotWorthy#sortedNew[i]", 3, "i < len(sortedCurrent), and the function returned earlier unless both snapshots hold the same number of validators"),
+  ("x/evm/keeper.Keeper.routerAttester#consensusMsg.(*types.Message)", 1, "the turnstone queue only stores *types.Message (WithStaticTypeCheck at PutMessageInQueue)"),
+  ("x/evm/keeper.Keeper.validatorBalancesAttester#consensusMsg.(*types.ValidatorBalancesAttestation)", 1, "the validators-balances queue only stores that type (WithStaticTypeCheck at PutMessageInQueue)"),
+  ("x/evm/keeper.updateValsetAttester.attest#actionMsg.(*types.Message)", 1, "messages of the same turnstone queue (static type check)"),
+  ("x/evm/keeper.compassHandoverAttester.Execute#a.msg.Action.(*types.Message_CompassHandover)", 1, "the attester is constructed by routerAttester's type switch on this very action"),
+  ("x/evm/keeper.submitLogicCallAttester.Execute#a.msg.Action.(*types.Message_SubmitLogicCall)", 1, "the attester is constructed by routerAttester's type switch on this very action"),
+  ("x/evm/keeper.updateValsetAttester.Execute#a.msg.Action.(*types.Message_UpdateValset)", 1, "the attester is constructed by routerAttester's type switch on this very action"),
+  ("x/evm/keeper.uploadSmartContractAttester.Execute#a.msg.Action.(*types.Message_UploadSmartContract)", 1, "the attester is constructed by routerAttester's type switch on this very action"),
+  ("x/evm/keeper.uploadUserSmartContractAttester.Execute#a.msg.Action.(*types.Message_UploadUserSmartContract)", 1, "the attester is constructed by routerAttester's type switch on this very action"),
+  ("x/evm/keeper.clampToZero#[]math.LegacyDec{math.LegacyZeroDec()}[0]", 1, "index 0 of a one-element literal"),
+  ("x/evm/types.BuildCompassConsensus#sig.Signature[64]", 1, "signatures are stored only after VerifySignature, whose Ecrecover refuses anything but 65 bytes: C06 theorems `stored_signature_bytes_verify_as_stored`, `nonstrict_wire_refused` (wire forms `short` / `long` are refused)"),
+  ("x/evm/types.BuildCompassConsensus#sig.Signature[:32]", 1, "signatures are stored only after VerifySignature, whose Ecrecover refuses anything but 65 bytes: C06 theorems `stored_signature_bytes_verify_as_stored`, `nonstrict_wire_refused` (wire forms `short` / `long` are refused)"),
+  ("x/evm/types.BuildCompassConsensus#sig.Signature[32:64]", 1, "signatures are stored only after VerifySignature, whose Ecrecover refuses anything but 65 bytes: C06 theorems `stored_signature_bytes_verify_as_stored`, `nonstrict_wire_refused` (wire forms `short` / `long` are refused)"),
+  ("x/evm/types.SubmitLogicCall.VerifyAgainstTX#[32]byte(append(padding, m.SenderAddress...))", 1, "SenderAddress is an account (20) or contract (32) address set by ExecuteJob; injectSenderIntoPayload refuses > 32 bytes (C17)"),
+  ("x/evm/types.UploadUserSmartContract.VerifyAgainstTX#[32]byte(append(padding, m.SenderAddress...))", 1, "SenderAddress is the 20-byte creator address"),
+  ("x/evm/types.ValidatorBalancesAttestation.Keccak256WithSignedMessage#m.HexAddresses[i]", 1, "ValAddresses and HexAddresses are appended pairwise by CheckExternalBalancesForChain, the only constructor")
 ]
 
 def siteOk (s : Paloma.Gen.Panics.Site) : Bool :=
   safeKinds.contains s.kind || justified.any (fun j => j.1 == s.fn ++ "#" ++ s.what)
+
+/-- how many sites of a non-safe kind carry this key in the current source (a second occurrence of a
+    justified expression in the same function is a new site: the recorded count then no longer matches) -/
+def unsafeSites (key : String) : Nat :=
+  (Paloma.Gen.Panics.sites.filter fun s => !safeKinds.contains s.kind && s.fn ++ "#" ++ s.what == key).length
 
 /-- **panic_inventory_covered.** In the current source, every explicit `panic`, `Must*` call,
 narrowing conversion of an `sdkmath` value, `sdkmath` division, unchecked type assertion,
@@ -223,6 +229,7 @@ end-blocker still installs its `recover`. A new unguarded conversion / Must / pa
 block path makes this `decide` fail. -/
 theorem panic_inventory_covered :
     (Paloma.Gen.Panics.sites.all siteOk &&
+     justified.all (fun j => unsafeSites j.1 == j.2.1) &&
      Paloma.Gen.Panics.recoverGuards.contains "x/skyway.EndBlocker" &&
      Paloma.Gen.Panics.entryPoints.contains "x/consensus.AppModule.EndBlock" &&
      Paloma.Gen.Panics.entryPoints.contains "x/evm.AppModule.EndBlock" &&
